@@ -150,7 +150,13 @@ def apply_op(pool, d, o):
         elif n == "Remove":
             d.remove(K_(a[0])); out = ["None"]
         elif n == "Sort":
-            d.sort(reverse=bool(a[0])); out = ["None"]
+            if len(a) > 1 and a[1] == "cmp":
+                # the legacy first parameter `cmp` is accepted and documented as ignored: the order is by identifier
+                # (a comparison that agrees with the identifier order, so that honouring it would give the same list)
+                d.sort(lambda x, y: (x.id > y.id) - (x.id < y.id), reverse=bool(a[0]))
+            else:
+                d.sort(reverse=bool(a[0]))
+            out = ["None"]
         elif n == "Reverse":
             d.reverse(); out = ["None"]
         elif n == "Copy":
@@ -283,7 +289,7 @@ def single_step_ops(nids, idx_range, slice_vals, slice_steps):
             ops.append(["SetSlice", s, es])
     for i in range(nids):
         ops += [["HasId", i], ["GetById", i]]
-    ops += [["Sort", 0], ["Sort", 1], ["Reverse"], ["Copy"], ["Pickle"], ["Len"]]
+    ops += [["Sort", 0], ["Sort", 1], ["Sort", 0, "cmp"], ["Reverse"], ["Copy"], ["Pickle"], ["Len"]]
     for m in [[], [0], [1, 2], list(range(nids))]:
         ops.append(["Query", m])
     return ops
@@ -371,7 +377,7 @@ def rand_history(rng, nids, length):
         elif n in ("Remove", "Index", "Contains"):
             o = [n, rand_key(rng, nids, cur, 0.2)]
         elif n == "Sort":
-            o = [n, rng.randrange(2)]
+            o = [n, rng.randrange(2)] + (["cmp"] if rng.random() < 0.3 else [])
         elif n == "Query":
             o = [n, rng.sample(range(nids), rng.randrange(0, nids))]
         elif n in ("HasId", "GetById"):
